@@ -997,7 +997,13 @@ class ManifestRecursiveLoader:
                         # otherwise, make sure we have all checksums
                         # (IGNORE entries have none)
                         if e.tag != 'IGNORE':
-                            out[fullpath][1].checksums.update(e.checksums)
+                            kept_mpath, kept = out[fullpath]
+                            old_checksums = dict(kept.checksums)
+                            kept.checksums.update(e.checksums)
+                            if kept.checksums != old_checksums:
+                                # the preserved entry has changed,
+                                # so its Manifest needs rewriting too
+                                self.updated_manifests.add(kept_mpath)
                         # and drop the duplicate
                         entries_to_remove.append(e)
                     else:
